@@ -18,12 +18,12 @@ theorem insert_comm (a b : String × String) (h : a.1 < b.1) :
   induction l with
   | nil => simp [insertByKey, h, hba]
   | cons q r ih =>
-    by_cases hbq : b.1 < q.1
-    · have haq : a.1 < q.1 := String.lt_trans h hbq
-      simp [insertByKey, hbq, haq, h, hba]
-    · by_cases haq : a.1 < q.1
-      · simp [insertByKey, hbq, haq, hba]
-      · simp [insertByKey, hbq, haq, ih]
+    by_cases hqa : q.1 < a.1
+    · have hqb : q.1 < b.1 := String.lt_trans hqa h
+      simp [insertByKey, hqa, hqb, ih]
+    · by_cases hqb : q.1 < b.1
+      · simp [insertByKey, hqa, hqb, h]
+      · simp [insertByKey, hqa, hqb, h, hba]
 
 theorem insert_comm_ne (a b : String × String) (hne : a.1 ≠ b.1) (l : List (String × String)) :
     insertByKey a (insertByKey b l) = insertByKey b (insertByKey a l) := by
@@ -66,11 +66,11 @@ theorem insertByKey_mem (p x : String × String) (l : List (String × String)) :
   | cons q r ih =>
     unfold insertByKey
     split
-    · simp
     · simp only [List.mem_cons, ih]
       constructor
       · rintro (h | h | h) <;> simp [h]
       · rintro (h | h | h) <;> simp [h]
+    · simp
 
 theorem insertByKey_sorted (p : String × String) (l : List (String × String)) (h : KeySorted l) :
     KeySorted (insertByKey p l) := by
@@ -81,19 +81,25 @@ theorem insertByKey_sorted (p : String × String) (l : List (String × String)) 
     have hq : ∀ x ∈ r, ¬ (x.1 < q.1) := (List.pairwise_cons.mp h).1
     have hr : KeySorted r := (List.pairwise_cons.mp h).2
     split
-    · rename_i hpq
-      refine List.pairwise_cons.mpr ⟨?_, h⟩
-      intro x hx
-      rcases List.mem_cons.mp hx with rfl | hx
-      · exact String.lt_asymm hpq
-      · intro hxp
-        exact hq x hx (String.lt_trans hxp hpq)
-    · rename_i hpq
+    · rename_i hqp
       refine List.pairwise_cons.mpr ⟨?_, ih hr⟩
       intro x hx
       rcases (insertByKey_mem p x r).mp hx with rfl | hx
-      · exact hpq
+      · exact String.lt_asymm hqp
       · exact hq x hx
+    · rename_i hqp
+      refine List.pairwise_cons.mpr ⟨?_, h⟩
+      intro x hx
+      rcases List.mem_cons.mp hx with rfl | hx
+      · exact hqp
+      · intro hxp
+        -- x < p and ¬ q < p give x < q, which sortedness of q :: r forbids
+        have : x.1 < q.1 := by
+          by_cases hpq : p.1 < q.1
+          · exact String.lt_trans hxp hpq
+          · have e : p.1 = q.1 := String.le_antisymm (String.not_lt.mp hqp) (String.not_lt.mp hpq)
+            rw [← e]; exact hxp
+        exact hq x hx this
 
 /-- **a dictionary's printed entries are in non-decreasing order of their printed keys**, whatever the order in
 which they were inserted, and they are exactly the entries given -/
